@@ -101,6 +101,14 @@ def build_cases(tier):
         for i in ("A.attr", "A.opt", "g.b", "g.k", "A.m.b"):
             for o in OUT_LOCS[:5]:
                 cases.append({"oi": oi, "oo": oo, "pairs": [[i, o]], "wrap": False, "eval": False, "via": "api", "leaf_before": True})
+    # the output module opens with a chained assignment (``ca = cb = 1``) and ends by re-assigning its first name; the statement
+    # is addressed by the name that only it defines
+    for oi, oo in multi_orders:
+        for i in ("Y", "A.attr", "A.opt", "g.a", "g.b"):
+            for wrap in (False, True):
+                cases.append({"oi": oi, "oo": oo, "pairs": [[i, "cb"]], "wrap": wrap, "eval": False, "via": "api", "chained": True})
+        cases.append({"oi": oi, "oo": oo, "pairs": [["Y", "cb"], ["g.a", "gg.v"]], "wrap": False, "eval": False, "via": "api", "chained": True})
+        cases.append({"oi": oi, "oo": oo, "pairs": [["VALS", "cb"]], "wrap": False, "eval": True, "via": "api", "chained": True})
     # eval mode with the wrap template and several pairs (the same evaluated input used twice, two different inputs)
     for oi, oo in multi_orders:
         for wrap in (False, True):
@@ -146,6 +154,8 @@ def address(tree, path):
                     nm = n.target.id
                 if nm is None and isinstance(n, ast.Assign) and len(n.targets) == 1 and isinstance(n.targets[0], ast.Name):
                     nm = n.targets[0].id
+                if nm is None and isinstance(n, ast.Assign) and len(n.targets) > 1 and isinstance(n.targets[-1], ast.Name) and n.targets[-1].id == seg:
+                    nm = seg  # a chained assignment, addressed by its last name
                 if nm == seg:
                     steps.append(("body", idx))
                     scope = n
@@ -253,6 +263,8 @@ class C14(core.Check):
         if case.get("overlap"):
             in_src += "\nQ: float = 1.5\natt: bytes = b'x'\nu: float = 2.5\nv: int = 3\nw: bool = True\n"
         out_src = module_src(OUT_ITEMS, case["oo"])
+        if case.get("chained"):
+            out_src = "ca = cb = 1\n\n\n" + out_src + "\nca = 2\n"
         fin, fout = os.path.join(self._dir, "input_mod.py"), os.path.join(self._dir, "output_mod.py")
         with open(fin, "w") as f:
             f.write(in_src)
@@ -268,6 +280,8 @@ class C14(core.Check):
         base = {"in_order": order_name(IN_ITEMS, case["oi"]), "out_order": order_name(OUT_ITEMS, case["oo"]),
                 "pairs": ";".join("%s->%s" % tuple(p) for p in pairs), "wrap": case["wrap"], "eval": case["eval"],
                 "via": case["via"], "resolvable": resolvable}
+        if case.get("chained"):
+            base["chained"] = True
         wrap = WRAP if case["wrap"] else None
         exc = None
         with boot.quiet():
